@@ -9,10 +9,19 @@ let stats : (string, int * int) Hashtbl.t = Hashtbl.create 16
 let bump kind d =
   let (a, b) = try Hashtbl.find stats kind with Not_found -> (0, 0) in
   Hashtbl.replace stats kind (a + 1, b + d)
+(* model: disagreements are capped (a changed error variant can produce thousands); spec: disagreements - concrete failing
+   inputs - have their own, separate budget so that they are never crowded out *)
 let ndiff_printed = ref 0
+let nspec_printed = ref 0
 let diff kind what expected line =
-  incr ndiff_printed;
-  if !ndiff_printed <= 2000 then Printf.printf "DIFF\t%s\t%s\t%s\t%s\n" kind what expected line
+  let is_spec = String.length what >= 5 && String.sub what 0 5 = "spec:" in
+  if is_spec then begin
+    incr nspec_printed;
+    if !nspec_printed <= 2000 then Printf.printf "DIFF\t%s\t%s\t%s\t%s\n" kind what expected line
+  end else begin
+    incr ndiff_printed;
+    if !ndiff_printed <= 2000 then Printf.printf "DIFF\t%s\t%s\t%s\t%s\n" kind what expected line
+  end
 
 (* ---------- C14 scores ---------- *)
 let score_of_string (s : string) : score =
@@ -582,7 +591,7 @@ let check_search line f =
        add "spec:move seen through the stable ABI (EvaluatedMove) = move returned" mv api_mv;
        add "spec:score seen through the stable ABI = score returned" sc api_sc;
        cmp_line "SR" line (List.rev !checks) end)
-  | ["SH"; xf; k; reps; mv; sc; depth] ->
+  | [("SH" | "SK") as kind; xf; k; reps; mv; sc; depth] ->
     (match parse_model xf with
      | None -> cmp_line "SH" line [("model:position-rejected-by-model-parser", "accepted", "rejected")]
      | Some b ->
@@ -590,7 +599,7 @@ let check_search line f =
        let kk = int_of_string k in
        let legal = api_spec_legal_moves (api_abs b) in
        let (((mmv, msc), mdepth), mfuel) =
-         api_search_tf (n_of_int kk) (api_nat_of_N (n_of_int (int_of_string reps))) (api_nat_of_N (n_of_int (min (kk + 2) 70001))) (api_nat_of_N (n_of_int 48)) b in
+         (if kind = "SK" then api_search_tfc else api_search_tf) (n_of_int kk) (api_nat_of_N (n_of_int (int_of_string reps))) (api_nat_of_N (n_of_int (min (kk + 2) 70001))) (api_nat_of_N (n_of_int 48)) b in
        let checks = ref [] in
        let add w e g = checks := (w, e, g) :: !checks in
        if mv <> "-" then
@@ -719,7 +728,7 @@ let dispatch line =
   | ("BK" | "BKS") :: _ -> check_book line f
   | "WK" :: _ -> bump "WK" 0
   | "GI" :: _ -> check_gi line f
-  | ("SR" | "SH" | "MR") :: _ -> check_search line f
+  | ("SR" | "SH" | "SK" | "MR") :: _ -> check_search line f
   | "BT" :: _ -> check_bot line f
   | "DIST" :: _ -> ()
   | k :: _ -> bump ("UNKNOWN:" ^ k) 1; diff "UNKNOWN" k "" line
